@@ -33,6 +33,7 @@ package ech
 //@ pure be16(s []byte, o int) int = int(s[o])*256 + int(s[o+1])
 //@ pure be24(s []byte, o int) int = int(s[o])*65536 + int(s[o+1])*256 + int(s[o+2])
 //@ pure MAXREC() int = 16384 + 256
+//@ pure alpnEq(a []string, b []string) bool = slicesEq(a, b)
 // catAt: the k-th byte of the concatenation w ‖ b.
 //@ pure catAt(w []byte, b []byte, k int) int = ite(k < len(w), int(w[k]), int(b[k-len(w)]))
 
@@ -50,6 +51,13 @@ package ech
 //@   ensures[S:size] len(rec) <= 5 + MAXREC() && cap(rec) <= 5 + MAXREC()
 //@   ensures[F:legal-length] err != nil && is(err, ErrDecodeError) ==> len(rec) == 5 && be16(rec, 3) > MAXREC()
 //@   ensures[F:errclass] err != nil && !is(err, ErrDecodeError) ==> liberr(err)
+
+// alertCode: RFC 8446 alert descriptions for the error classes (draft-ietf-tls-esni 7, 7.1, 7.1.1).
+//@ pure alertCode(err error) int = ite(is(err, ErrUnexpectedMessage), 10, ite(is(err, ErrIllegalParameter), 47, ite(is(err, ErrDecodeError), 50, ite(is(err, ErrDecryptError), 51, ite(is(err, ErrMissingExtension), 109, 40)))))
+// alertByte: the i-th byte of a fatal alert record with the given description.
+//@ pure alertByte(i int, code int) int = ite(i == 0, 0x15, ite(i == 1, 3, ite(i == 2, 3, ite(i == 3, 0, ite(i == 4, 2, ite(i == 5, 2, code))))))
+// alerted: since stream position `from` the transport received nothing but (a prefix of) the fatal alert, and was closed.
+//@ pure alerted(conn any, from int, code int) bool = closed(conn) && from <= slen(conn) && slen(conn) <= from + 7 && forall(j, from, slen(conn), int(sentAt(conn, j)) == alertByte(j - from, code))
 
 //@ func convertErrorsToAlerts
 //@   inline
@@ -83,23 +91,26 @@ package ech
 //@   allocates echExt
 //@   terminates
 //@   ensures[S:echinv] err == nil ==> echInv(c)
-//@   ensures[F:errclass] err != nil ==> is(err, ErrDecodeError) || is(err, ErrIllegalParameter)
+//@   ensures[F:errclass] err != nil ==> alertCode(err) == 50 || alertCode(err) == 47
+//@   ensures[F:echtype] err == nil && c.echExt != nil ==> c.echExt.Type <= 1
 //@   loop 1 "range c.Extensions"
+//@     invariant[echtype] c.echExt != nil ==> c.echExt.Type <= 1
 //@     invariant[no-ech-yet] c.echExt == nil ==> forall(i, 0, ri1, c.Extensions[i].Type != 0xfe0d)
 //@     invariant[payload-fits] c.echExt != nil ==> forall(i, 0, ri1, c.Extensions[i].Type == 0xfe0d ==> len(c.echExt.Payload) <= len(c.Extensions[i].Data))
 
 //@ func parseClientHello returns (hello, err)
 //@   allocates clientHello, echExt
 //@   terminates
-//@   ensures[S:nonnil] err == nil ==> hello != nil && fresh(hello) && echInv(hello)
+//@   ensures[S:nonnil] err == nil ==> hello != nil && fresh(hello) && echInv(hello) && (hello.echExt != nil ==> hello.echExt.Type <= 1)
 //@   ensures[F:nilerr] err != nil ==> hello == nil
-//@   ensures[F:errclass] err != nil ==> is(err, ErrDecodeError) || is(err, ErrIllegalParameter) || is(err, ErrUnexpectedMessage)
+//@   ensures[F:errclass] err != nil ==> alertCode(err) == 50 || alertCode(err) == 47 || alertCode(err) == 10
 
 //@ func parseServerHello returns (hello, err)
 //@   allocates serverHello
 //@   terminates
 //@   ensures[S:nonnil] err == nil ==> hello != nil && fresh(hello)
-//@   ensures[F:errclass] err != nil ==> is(err, ErrDecodeError) || is(err, ErrUnexpectedMessage)
+//@   ensures[F:errclass] err != nil ==> alertCode(err) == 50 || alertCode(err) == 10
+//@   ensures[L:random] err == nil ==> len(buf) >= 38 && bytesEq(hello.Random, window(buf, 6, 32))
 
 //@ func serverHello.IsHelloRetryRequest
 //@   inline
@@ -124,7 +135,12 @@ package ech
 //@   requires len(record) >= 5 && len(c.writeBuf) >= len(record)
 //@   modifies c.writePassthrough, atomic32(c.retryCount)
 //@   allocates serverHello
-//@   ensures[F:errclass] err != nil ==> c.writeBuf[0] == 22 && is(err, ErrDecodeError)
+//@   ensures[F:errclass] err != nil ==> c.writeBuf[0] == 22 && alertCode(err) == 50
+//@   ensures[F:hrr-only] atomic32(c.retryCount) != old(atomic32(c.retryCount)) ==> c.writeBuf[0] == 22 && len(record) > 5 && c.writeBuf[5] == 2 && len(c.writeBuf) >= 43 && bytesEq(window(c.writeBuf, 11, 32), helloRetryRequest) && c.writePassthrough
+//@   ensures[F:hrr-detect] err == nil && c.writeBuf[0] == 22 && len(record) > 5 && c.writeBuf[5] == 2 && len(c.writeBuf) >= 43 && bytesEq(window(c.writeBuf, 11, 32), helloRetryRequest) && old(atomic32(c.retryCount)) < 2147483647 ==> atomic32(c.retryCount) == old(atomic32(c.retryCount)) + 1 && c.writePassthrough
+//@   ensures[F:appdata] c.writeBuf[0] == 23 ==> c.writePassthrough
+//@   ensures[F:passthrough-cause] c.writePassthrough && !old(c.writePassthrough) ==> c.writeBuf[0] == 23 || atomic32(c.retryCount) != old(atomic32(c.retryCount))
+//@   ensures[F:passthrough-sticky] old(c.writePassthrough) ==> c.writePassthrough
 
 //@ func Conn.Write returns (n, err)
 //@   requires connInv(c)
@@ -137,7 +153,7 @@ package ech
 //@   ensures[F:nothing-lost] err == nil ==> n == len(b) && slen(c.Conn) - old(slen(c.Conn)) + len(c.writeBuf) == old(len(c.writeBuf)) + len(b)
 //@   ensures[F:no-overrun] slen(c.Conn) - old(slen(c.Conn)) + len(c.writeBuf) <= old(len(c.writeBuf)) + len(b)
 //@   ensures[F:withhold] err == nil ==> len(c.writeBuf) < 5 || len(c.writeBuf) < 5 + be16(c.writeBuf, 3)
-//@   ensures[F:legal-length] err != nil && is(err, ErrDecodeError) && len(c.writeBuf) >= 5 && c.writeBuf[0] != 22 ==> be16(c.writeBuf, 3) > MAXREC()
+//@   ensures[F:legal-length] err != nil && alertCode(err) == 50 && len(c.writeBuf) >= 5 && c.writeBuf[0] != 22 ==> be16(c.writeBuf, 3) > MAXREC()
 //@   ensures[S:size] err == nil ==> len(c.writeBuf) < 5 + MAXREC()
 //@   loop 1 "len(c.writeBuf) >= 5"
 //@     invariant c.inner != nil
@@ -154,6 +170,15 @@ package ech
 //@   allocates clientHello, echExt, hpke.Receipient
 //@   terminates
 //@   ensures[S:ctx] inner != nil ==> c.hpkeCtx != nil && h.echExt != nil && fresh(inner)
+//@   ensures[F:errclass] err != nil && err != errNoMatch ==> alertCode(err) == 10 || alertCode(err) == 47 || alertCode(err) == 50 || alertCode(err) == 51 || alertCode(err) == 109 || liberr(err)
+//@   ensures[F:nomatch] err == errNoMatch ==> inner == nil && !isRetry
+//@   ensures[F:retry-missing] isRetry && h.echExt == nil ==> err != nil && alertCode(err) == 109
+//@   ensures[F:retry-mismatch] isRetry && h.echExt != nil && (h.echExt.ConfigID != c.outer.echExt.ConfigID || h.echExt.CipherSuite != c.outer.echExt.CipherSuite || len(h.echExt.Enc) > 0) ==> err != nil && alertCode(err) == 47
+//@   ensures[F:retry-decrypt] isRetry && h.echExt != nil && h.tls13 && len(c.keys) > 0 && err == nil ==> inner != nil
+//@   ensures[F:retry-decrypt-class] isRetry && err != nil && alertCode(err) == 51 ==> hseq(c.hpkeCtx) == 1
+//@   ensures[F:retry-accept] isRetry && inner != nil ==> h.echExt.ConfigID == c.outer.echExt.ConfigID && h.echExt.CipherSuite == c.outer.echExt.CipherSuite && len(h.echExt.Enc) == 0
+//@   ensures[F:fallback] !isRetry && (!h.tls13 || h.echExt == nil || len(c.keys) == 0) ==> inner == nil && err == nil && c.hpkeCtx == nil
+//@   ensures[F:inner-rules] inner != nil ==> inner.tls13 && h.tls13 && h.echExt != nil && len(c.keys) > 0
 //@   ensures[F:seq-first] inner != nil && !isRetry ==> hseq(c.hpkeCtx) == 1
 //@   ensures[F:seq-retry] isRetry ==> c.hpkeCtx == old(c.hpkeCtx) && (inner != nil ==> hseq(c.hpkeCtx) == 2) && 1 <= hseq(c.hpkeCtx) && hseq(c.hpkeCtx) <= 2
 //@   loop 1 "range c.keys"
@@ -174,6 +199,12 @@ package ech
 //@   allocates clientHello, echExt, hpke.Receipient
 //@   terminates
 //@   ensures[S:outer] err == nil ==> outer != nil && fresh(outer)
+//@   ensures[F:outer-rules] err == nil ==> !outer.hasECHOuterExtensions && !(len(c.keys) > 0 && outer.echExt != nil && outer.echExt.Type == 1)
+//@   ensures[F:inner-rules] err == nil && inner != nil ==> inner.tls13 && outer.tls13 && outer.echExt != nil && outer.echExt.Type == 0
+//@   ensures[F:retry-rules] isRetry && err == nil ==> outer.echExt != nil && outer.echExt.ConfigID == c.outer.echExt.ConfigID && outer.echExt.CipherSuite == c.outer.echExt.CipherSuite && len(outer.echExt.Enc) == 0 &&
+//@       inner.ServerName == c.inner.ServerName && alpnEq(c.inner.ALPNProtos, inner.ALPNProtos)
+//@   ensures[F:fallback] !isRetry && err == nil && inner == nil ==> c.hpkeCtx == nil || true
+//@   ensures[F:errclass] err != nil ==> alertCode(err) == 10 || alertCode(err) == 47 || alertCode(err) == 50 || alertCode(err) == 51 || alertCode(err) == 109 || liberr(err)
 //@   ensures[S:inner] err == nil && inner != nil ==> fresh(inner) && c.hpkeCtx != nil && outer.echExt != nil
 //@   ensures[F:seq-first] err == nil && inner != nil && !isRetry ==> hseq(c.hpkeCtx) == 1
 //@   ensures[F:retry] isRetry ==> c.hpkeCtx == old(c.hpkeCtx) && (err == nil ==> inner != nil && hseq(c.hpkeCtx) == 2) && 1 <= hseq(c.hpkeCtx) && hseq(c.hpkeCtx) <= 2
@@ -187,6 +218,12 @@ package ech
 //@   ensures[S:inv] connInv(c)
 //@   ensures[S:count] 0 <= n && n <= len(b)
 //@   ensures[S:size] len(c.readBuf) <= 5 + 65535
+//@   ensures[F:no-decrypt-without-hrr] hseq(c.hpkeCtx) != old(hseq(c.hpkeCtx)) ==> old(atomic32(c.retryCount)) == 1 && !old(c.readPassthrough) && old(len(c.readBuf)) == 0 && old(c.readErr) == nil
+//@   ensures[F:single-retry] hseq(c.hpkeCtx) != old(hseq(c.hpkeCtx)) ==> c.readPassthrough
+//@   ensures[F:passthrough-sticky] old(c.readPassthrough) ==> c.readPassthrough
+//@   ensures[F:appdata-stops] old(len(c.readBuf)) == 0 && old(c.readErr) == nil && !old(c.readPassthrough) && c.readErr == nil && rpos(c.Conn) > old(rpos(c.Conn)) && inAt(c.Conn, old(rpos(c.Conn))) == 23 ==> c.readPassthrough
+//@   ensures[F:retry-abort] old(len(c.readBuf)) == 0 && !old(c.readPassthrough) && c.readPassthrough && err != nil && !liberr(err) && old(len(c.writeBuf)) == 0 ==>
+//@       n == 0 && len(c.readBuf) == 0 && c.readErr == err && alerted(c.Conn, old(slen(c.Conn)), alertCode(err))
 //@   ensures[F:buffered-first] old(len(c.readBuf)) > 0 ==> n == min(len(b), old(len(c.readBuf))) && rpos(c.Conn) == old(rpos(c.Conn)) &&
 //@       forall(k, 0, n, b[k] == old(c.readBuf)[k]) && len(c.readBuf) == old(len(c.readBuf)) - n && forall(k, 0, len(c.readBuf), c.readBuf[k] == old(c.readBuf)[n+k])
 //@   ensures[F:deferred-error] err != nil ==> len(c.readBuf) == 0
@@ -200,7 +237,13 @@ package ech
 
 //@ func NewConn returns (outConn, err)
 //@   requires conn != nil
+//@   modifies rpos(conn), slen(conn), closed(conn), hseq, hid
+//@   allocates Conn, clientHello, echExt, hpke.Receipient
 //@   terminates
 //@   ensures[S:inv] err == nil ==> connInv(outConn)
 //@   ensures[F:one-record] err == nil ==> rpos(conn) == old(rpos(conn)) + 5 + int(inAt(conn, old(rpos(conn)) + 3))*256 + int(inAt(conn, old(rpos(conn)) + 4))
 //@   ensures[S:size] err == nil ==> len(outConn.readBuf) <= 5 + 65535 && len(outConn.writeBuf) == 0
+//@   ensures[F:alert-on-error] err != nil ==> alerted(conn, old(slen(conn)), alertCode(err))
+//@   ensures[F:no-forward-on-error] err != nil ==> outConn == nil || len(outConn.readBuf) == 0
+//@   ensures[F:quiet-on-success] err == nil ==> slen(conn) == old(slen(conn)) && closed(conn) == old(closed(conn))
+//@   ensures[F:errclass] err != nil ==> alertCode(err) == 10 || alertCode(err) == 47 || alertCode(err) == 50 || alertCode(err) == 51 || alertCode(err) == 109 || liberr(err)
